@@ -602,6 +602,9 @@ void run_stream_level(Judge& j, uint64_t n) {
         }
         int nk = (int)rng.below(3);
         for (int k = 0; k < nk; ++k) { Action x; x.kind = Action::net_kill; x.at = (vt)rng.range(100 * MS, span); x.ec = (int)rng.below(6); sc.script.push_back(x); }
+        // slow write completions: a write is still pending on the old transport when a read-side failure makes the client replace it
+        if (!probe && rng.chance(1, 2)) sc.net.write_done_delay_max = (vt)rng.pick(std::vector<vt>{200 * MS, 1500 * MS});
+        if (!probe && rng.chance(1, 2)) { Fault f; f.kind = rng.chance(1, 2) ? Fault::eof_b2c : Fault::reset_b2c; f.conn_ordinal = (int)rng.below(2); f.at = rng.range(5, 12); sc.faults.push_back(f); }
         bool restart = !probe && rng.chance(1, 3);
         if (restart) {
             // what a client stopped through async_run's cancellation slot and run again does to the same stream object:
